@@ -186,8 +186,11 @@ def rand_val(rng, env):
     return ("real", f64_bits(float(rng.randrange(100))))
 
 FMLA_TAIL = struct.pack("<HI", 0, 3) + b"\x1e\x01\x00" + struct.pack("<I", 0)
-IGNORABLE = [1, 0x0C, 0x0D, 0x25, 0x26, 0x3C, 0x7F, 0x80, 0x82, 0x100, 0x102, 0x103, 0x185, 0x192, 0x292,
-             0x0400, 0x0491, 0x1000, 0x3FFF, 0x91, 0x94, 0x81]
+# records outside the cell table grammar (xlsbgen.CELL_TABLE_IDS): FRT / AC blocks, BrtCellMeta 0x31,
+# BrtValueMeta 0x32, BrtArrFmla 0x1AA, BrtShrFmla 0x1AB, BrtTable 0x1AC, ids sharing their low byte
+# with cell records (0x100 + n, 0x80 + n), header records met again, ...
+IGNORABLE = [0x13, 0x25, 0x26, 0x31, 0x32, 0x3C, 0x7F, 0x80, 0x82, 0x8C, 0x8D, 0x100, 0x101, 0x102, 0x103, 0x10C, 0x10D,
+             0x112, 0x185, 0x192, 0x292, 0x1AA, 0x1AB, 0x1AC, 0x0400, 0x0491, 0x1000, 0x3FFF, 0x91, 0x94, 0x81]
 def rand_body(rng, big=0.0):
     """body of an ignorable record; with probability [big] larger than the 8 KiB the BufReader over
     the zip entry holds (up to 64 KiB: BrtArrFmla / FRT blobs)"""
@@ -202,9 +205,11 @@ def gen_layout(rng, env, dim_mode=None):
     c0 = rng.choice([0, 0, 1, 255, 256, 16383 - rng.randrange(9), rng.randrange(1 << 14)])
     rows = sorted(set(min(r0 + rng.randrange(7), 1048575) for _ in range(rng.randrange(0, 6))))
     items, nstyle = [], len(env["fmts"])
+    # SheetJS writes a short record for every cell that directly follows another one; Excel none
+    short_share = rng.choice([0.0, 0.3, 0.6, 1.0])
     def other():
         rid = rng.choice(IGNORABLE) if rng.random() < 0.8 else rng.choice(
-            [x for x in [rng.randrange(16384)] if x not in G.INTERPRETED] or [1])
+            [x for x in [rng.randrange(16384)] if x not in G.CELL_TABLE_IDS] or [0x13])
         body = rand_body(rng, big=0.06)
         return {"fr": rand_fr(rng, rid, body), "k": "other", "id": rid, "body": body}
     for r in rows:
@@ -228,10 +233,28 @@ def gen_layout(rng, env, dim_mode=None):
             it = {"k": "cell", "col": c, "style": style, "fl": rng.choice([0, 0, 1, 0xFF]), "v": v, "tail": tail}
             it["fr"] = rand_fr(rng, G.item_id(it), G.item_body(it))
             items.append(it)
+            # a run of short cell records (no column field: each stands right of the previous cell
+            # record, blank and formula ones included), other records in between now and then
+            prev = c
+            if rng.random() < short_share:
+                for _ in range(rng.choice([1, 1, 2, 3, 5, 9])):
+                    if prev + 1 > 16383:
+                        break
+                    if rng.random() < 0.12:
+                        items.append(other())
+                    v = rand_val(rng, env)
+                    while v[0] not in G.SHORTABLE:
+                        v = rand_val(rng, env)
+                    style = rng.choice([rng.randrange(nstyle + 1), rng.randrange(nstyle + 1), 0, 0xFFFFFF])
+                    tail = b"" if rng.random() < 0.9 else bytes(rng.getrandbits(8) for _ in range(4))
+                    it = {"k": "short", "style": style, "fl": rng.choice([0, 0, 1, 0xFF]), "v": v, "tail": tail}
+                    it["fr"] = rand_fr(rng, G.item_id(it), G.item_body(it))
+                    items.append(it)
+                    prev += 1
     if rng.random() < 0.3:
         items.append(other())
     if not rows:
-        items = [x for x in items if x["k"] != "cell"]
+        items = [x for x in items if x["k"] not in ("cell", "short")]
     # a cell table starts with a row header: leading ignorable records are fine, cells are not
     def raw(rid, body, p=0.25):
         return {"fr": rand_fr(rng, rid, body, p), "id": rid, "body": body}
@@ -287,6 +310,33 @@ def gen_layout(rng, env, dim_mode=None):
     L = {"pre1": pre1, "dim": dim, "pre2": pre2, "begin": (rand_fr(rng, 0x91, bb), bb), "items": items,
          "end": (rand_fr(rng, 0x92, b""), b""), "trailer": trailer}
     return L, exp
+
+def corpus_short_layout():
+    """witness of the former defect XLSB-3 (notes/AUDIT2.md, repro xlsb_4): one row written the way
+    SheetJS writes it — a full cell record, then a short record for every cell that directly follows
+    another one: A1 = 1.5 (BrtCellReal), B1 = 2.5 (BrtShortReal), C1 = 3 (BrtShortRk), D1 shared string
+    (BrtShortIsst), E1 inline string (BrtShortSt), F1 TRUE (BrtShortBool), G1 #DIV/0! (BrtShortError),
+    H1 blank (BrtShortBlank), I1 = 9 (BrtShortReal); a second row: a formula cell, then shorts.
+    Before the fix next_cell returned A1 (and A2) only."""
+    env = {"fmts": [0, 1], "xf_ids": [0, 14], "customs": [], "d1904": False, "strings": ["shared"]}
+    vals = [("real", f64_bits(2.5)), ("rk", "i", 3, False), ("isst", 0), ("st", "inline"), ("bool", True),
+            ("err", 0x07), ("blank",), ("real", f64_bits(9.0))]
+    def mk(it):
+        it["fr"] = min_fr(G.item_id(it), G.item_body(it))
+        return it
+    items = [mk({"k": "row", "row": 0, "tail": struct.pack("<IHBBBI", 0, 300, 0, 0, 0, 0)}),
+             mk({"k": "cell", "col": 0, "style": 0, "fl": 0, "v": ("real", f64_bits(1.5)), "tail": b""})]
+    items += [mk({"k": "short", "style": 0, "fl": 0, "v": v, "tail": b""}) for v in vals]
+    items += [mk({"k": "row", "row": 1, "tail": b""}),
+              mk({"k": "cell", "col": 2, "style": 0, "fl": 0, "v": ("fnum", f64_bits(4.0)), "tail": FMLA_TAIL}),
+              mk({"k": "short", "style": 1, "fl": 0, "v": ("real", f64_bits(45000.0)), "tail": b""}),
+              mk({"k": "short", "style": 1, "fl": 1, "v": ("rk", "i", 45001, False), "tail": b""})]
+    dim = struct.pack("<IIII", 0, 1, 0, 8)
+    L = {"pre1": [("R", {"fr": (True, 0), "id": 0x81, "body": b""})],
+         "dim": {"fr": (True, 0), "d": (0, 0, 1, 8), "tail": b""}, "pre2": [],
+         "begin": ((True, 0), b""), "items": items, "end": ((True, 0), b""),
+         "trailer": frame((True, 0), 0x82, b"")}
+    return env, L, G.expected_cells(L, env)
 
 def gen_sst(rng, env):
     """sharedStrings.bin realising env['strings'] (None: part absent when there are no strings)"""
@@ -410,6 +460,14 @@ def run_files(ctx, n_files, tag, hdr_share=0.0):
         sst_bytes, sst_desc = gen_sst(rng, env)
         nsheets = rng.choice([1, 1, 1, 2])
         sheets, descr = [], []
+        if k == 0:
+            # corpus: the witness of the former defect XLSB-3 (short cell records)
+            env, L, exp = corpus_short_layout()
+            sst_bytes, sst_desc = gen_sst(rng, env)
+            nsheets = 0
+            sheets.append(("S0", G.enc_layout(L)))
+            descr.append((L, exp))
+            ctx.count("corpus:short-cell-run")
         for si in range(nsheets):
             L, exp = gen_layout(rng, env)
             sheets.append(("S%d" % si, G.enc_layout(L)))
@@ -437,7 +495,7 @@ def run_files(ctx, n_files, tag, hdr_share=0.0):
         ctx.traces += 1
         ctx.count("file:dim-" + ("absent" if L["dim"] is None else "present"))
         for it in L["items"]:
-            ctx.count("item:" + (it["v"][0] if it["k"] == "cell" else it["k"]))
+            ctx.count("item:" + (it["v"][0] if it["k"] == "cell" else "short-" + it["v"][0] if it["k"] == "short" else it["k"]))
         case = file_lines[i] + "\t#model: " + sheet_lines[i][:4000]
         ef = e.split("#")
         if len(ef) != 10:
@@ -520,13 +578,53 @@ def mutate_sheet(rng, L, env):
         return b"".join(frame(fr, rid, body) if G.fr_ok(fr, rid, body) else reframe(rid, body, rng)
                         for fr, rid, body, _ in rs) + L["trailer"]
     kind = rng.choice(["trunc", "cellcut", "cellcut", "rowcut", "errcode", "isst", "bigrow", "rowswap", "dims",
-                       "dimshort", "noend", "widelen", "hibits", "nobegin", "cellfirst", "coloffset"])
+                       "dimshort", "noend", "widelen", "hibits", "nobegin", "cellfirst", "coloffset",
+                       "shortcut", "shortfirst", "shortedge", "shortfmla", "blankcut"])
     cells = [i for i, r in enumerate(recs) if r[3] == "cell"]
     rows = [i for i, r in enumerate(recs) if r[3] == "row"]
     lo_row = min([it["row"] for it in L["items"] if it["k"] == "row"] or [0])
     hi_row = max([it["row"] for it in L["items"] if it["k"] == "row"] or [0])
     if kind in ("cellfirst", "nobegin") and hi_row > 2000:
         kind = "trunc"                      # keep the dense range small
+    shorts = [i for i, r in enumerate(recs) if r[3] == "short"]
+    def short_rec():
+        v = rng.choice([("real", f64_bits(2.5)), ("bool", True), ("rk", "i", 7, False), ("st", "s"), ("err", 0x07), ("blank",)])
+        it = {"k": "short", "style": 0, "fl": 0, "v": v, "tail": b""}
+        return ((False, 0), G.item_id(it), G.item_body(it), "short")
+    if kind == "shortcut" and shorts:
+        # a short record cut anywhere (its fixed fields are 4 bytes shorter than its long twin's)
+        i = rng.choice(shorts)
+        fr, rid, body, role = recs[i]
+        recs[i] = (fr, rid, body[:rng.randrange(len(body) + 1)], role)
+        return build(recs), kind
+    if kind == "shortfirst" and rows:
+        # a short record with no cell before it in its row (first of the row, or of the table)
+        # (straight after BrtBeginSheetData it lands in row 0: only when the rows are small, to keep
+        # the dense range small)
+        i = rng.choice(rows + ([j for j, r in enumerate(recs) if r[3] == "begin"] if hi_row <= 2000 else []))
+        recs.insert(i + 1, short_rec())
+        return build(recs), kind
+    if kind == "shortedge" and cells:
+        # a cell in the last column(s) followed by short records: columns 16384, 16385 ...
+        i = rng.choice(cells)
+        fr, rid, body, role = recs[i]
+        if len(body) >= 4:
+            recs[i] = (fr, rid, struct.pack("<I", rng.choice([16383, 16382, 65535])) + body[4:], role)
+            for _ in range(rng.randrange(1, 4)):
+                recs.insert(i + 1, short_rec())
+        return build(recs), kind
+    if kind == "shortfmla" and cells:
+        # ids 19.. are not short records: a formula body under id 8 + 11 etc. is skipped
+        i = rng.choice(cells)
+        fr, rid, body, role = recs[i]
+        recs.insert(i + 1, ((False, 0) if len(body) < 124 else (False, 1), rng.choice([19, 20, 21, 22]), body[4:], "other"))
+        return build(recs), kind
+    if kind == "blankcut":
+        # BrtCellBlank / BrtShortBlank shorter than their fixed fields, then a short record
+        j = rng.choice(cells + rows) if (cells + rows) else 0
+        recs.insert(j + 1, ((False, 0), rng.choice([1, 12]), bytes(rng.randrange(0, 8)), "cell"))
+        recs.insert(j + 2, short_rec())
+        return build(recs), kind
     if kind == "trunc":
         b = build(recs)[:-len(L["trailer"])] if L["trailer"] else build(recs)
         return b[:rng.randrange(len(b) + 1)], kind
